@@ -10,6 +10,8 @@ Lines (tab separated; `k=v` fields, lists `;`-separated with `:` inside):
   liq.slice.single  len off batch s1 e1 s2 e2                      real GetSliceStartEndForLiquidations of both generations
   liq.cr.single     product amountIn totalOut <raw|err|panic>      real vault CalculateCollateralizationRatio (current env)
   liq.br.single     assetIn assetOut amountIn debt <raw|err|panic> real lend CalculateCollateralizationRatio (current env)
+  liq.selloff.single amountIn updatedOut pIn pOut dIn dOut c pen bon | cr selloff toAuction toReserve burnt newAmountIn lendReduction <ok|err>
+                     real generation-1 UpdateLockedBorrows (direct keeper call on a branch)
 pre  := V=<id:app:prod:in:out:int:fee:intAfterAccrual>… C= O=<key:off>… VB= AB= LID= AID= PB= B=<borrow, 23 fields>… LS=<lend:amountIn>…
         TL=/TB=<pool·2³²+asset:total>… PT=<product:minted:locked>…
 post := V=<ids,> C= O= VB= AB= LID= AID= NL=<id:orig:app:amt:isBorrow:debt:target:fee:bonus:cr:collToBeAuctioned>…
@@ -355,6 +357,15 @@ def handle (st : St) (seq : String) (f : List String) : St × List String :=
     let m := showR (borrowRatio st.env b)
     let r := if res = "panic" then "err" else res
     (st, if m = r then [] else [s!"DIFF\t{seq}\tbr model={m} impl={res}"])
+  | ["liq.selloff.single", ai, uo, pi, po, di, dout, c, pen, bon, cr, so, ta, tr, td, na, lr, res] =>
+    let i : SellOffIn := { amountIn := int! ai, updatedOut := int! uo, pIn := int! pi, pOut := int! po, dIn := int! di, dOut := int! dout,
+                           c := int! c, pen := int! pen, bon := int! bon }
+    let render (o : SellOffOut) : String := s!"{o.cr} {o.selloff} {o.toAuction} {o.toReserve} {o.totalDeduction} {o.newAmountIn} {o.lendReduction}"
+    let m := match sellOffV1 i with | some o => render o | none => "err"
+    let r := if res = "ok" then s!"{cr} {so} {ta} {tr} {td} {na} {lr}" else "err"
+    -- law on the REAL result: what is sent to the auction account never exceeds what the position held
+    let mon := if res = "ok" && int! ta + int! tr > int! ai then [s!"MON\t{seq}\tgen1_selloff_exceeds_collateral"] else []
+    (st, (if m = r then [] else [s!"DIFF\t{seq}\tselloff model={m} impl={r}"]) ++ mon)
   | _ => (st, [s!"BAD\t{seq}\tunknown liq line"])
 
 end Comdex.Drv.Liquidation
